@@ -214,7 +214,9 @@ func prettyPrintCompact(ps *PrintState, s Node, i int) bool {
 // Normal/long form print: Decide if using new line or space as separator.
 func prettyPrintLongForm(ps *PrintState, s Node, i int) {
 	if i > 0 || ps.IndentLevel > 1 {
-		if keepSameLineAsPrevious(s) || !needNewLineAfter(ps.prev) {
+		// ps.prev is the statement printed before s only when s is not the first of its block (i > 0):
+		// at the start of a nested block it is whatever was printed last in an earlier block.
+		if keepSameLineAsPrevious(s) || (i > 0 && !needNewLineAfter(ps.prev)) {
 			log.Debugf("=> PrettyPrint adding just a space")
 			_, _ = ps.Out.Write([]byte{' '})
 			ps.IndentationDone = true
